@@ -609,7 +609,7 @@ def check_format_detection_eval(chk) -> bool:
         for tag, lines, want in format_cases(sp):
             n += 1
             f = TextFile(lines)
-            f.pos = len(lines) // 2  # a handle that has been read before: detection has to rewind it itself
+            f.pos = len(lines)  # a handle that has been read to its end before: detection has to rewind it itself
             try:
                 got = call(f)
             except Raised as ex:
